@@ -191,7 +191,7 @@ func TestC03Net(t *testing.T) {
 		must(os.WriteFile(filepath.Join(cfg, n), []byte(c), 0o644))
 	}
 	limited := hlref.AllAccess().Defined()
-	for _, p := range []int{hlref.PrivDisconUser, hlref.PrivDeleteUser, hlref.PrivModifyUser} {
+	for _, p := range []int{hlref.PrivDeleteUser, hlref.PrivModifyUser} { // the well-behaved account cannot be disconnected
 		limited.Clear(p)
 	}
 	must(os.WriteFile(filepath.Join(cfg, "Users", "good.yaml"), hlsim.AccountYAML(hlsim.AccountSpec{Login: "good", Name: "Good", Password: "gpw", Access: hlref.AllAccess()}), 0o644))
